@@ -471,7 +471,15 @@ def _handler_lists(run, fn, D, domain=None):
             table = None
             if h.name and domain is not None:
                 OTHER = 0x6FFE
-                tab = tabulate(P, fn, D, h.body, [f"{h.name}.error_code"], list(domain) + [OTHER])
+                # locals bound once, before the handler runs, to constants (named lists of status words) are part of the table's environment
+                env0 = {}
+                for n_ in A.own_nodes(fn):
+                    if isinstance(n_, ast.Assign) and len(n_.targets) == 1 and isinstance(n_.targets[0], ast.Name) and len(defs_of(A, fn, n_.targets[0].id)) == 1:
+                        try:
+                            env0[n_.targets[0].id] = P.const_eval(n_.value, fn.module, cls=D)
+                        except (Unknown, AnalysisError):
+                            pass
+                tab = tabulate(P, fn, D, h.body, [f"{h.name}.error_code"], list(domain) + [OTHER], env0=env0)
 
                 def resp_of(o):
                     if o[0] != "return" or not isinstance(o[1], tuple) or len(o[1]) != 2:
